@@ -234,20 +234,6 @@ fn diag(m: &Machine) -> Value {
                    "kil_reads": s.kil_read_count})
         }).ok())
         .unwrap_or_default();
-    let lcd_counters = rt
-        .lcd
-        .as_ref()
-        .map(|l| {
-            let (meta, _) = l.export_snapshot();
-            let mut v = Vec::new();
-            if let Some(arr) = meta.get("chips").and_then(|x| x.as_array()) {
-                for c in arr {
-                    v.push(json!([c.get("instruction_count"), c.get("data_write_count"), c.get("data_read_count")]));
-                }
-            }
-            json!([v, meta.get("cs_both_count"), meta.get("cs_left_count"), meta.get("cs_right_count")]).to_string()
-        })
-        .unwrap_or_default();
     let mut card = String::new();
     for ov in rt.overlays() {
         if let Some(d) = ov.data.as_ref() {
@@ -275,7 +261,6 @@ fn diag(m: &Machine) -> Value {
         "call_sub_level": rt.state.call_sub_level(),
         "temps": temps,
         "kb_state": kb_state,
-        "lcd_counters": lcd_counters,
         "overlay_data": card,
         "fast_mode": rt.fast_mode,
         "ext_hash": fnv64(rt.memory.external_slice()),
